@@ -13,7 +13,7 @@
 (* and replayed (a) sequentially in one process against long-lived         *)
 (* objects and (b) by real threads sharing the parsed queries.             *)
 (***************************************************************************)
-EXTENDS Universes, TLC, Json
+EXTENDS Universes, JPParse, TLC, Json
 
 S(str) == str
 dStr == JArr(<<JStr(cA), JStr(<<120, 97, 98>>), JStr(cB), JStr(<<98, 97>>), JStr(<<97, 98>>)>>)           \* ["a","xab","b","ba","ab"]
@@ -35,11 +35,27 @@ SQ == << Re("match", Pat1), Re("search", Pat1), Re("match", Pat2), Re("search", 
          <<N1(<<105>>), Desc(<<SName(cA)>>)>>,                                                                       \* 13: $.i..a   (.. applied to an empty array)
          <<Desc(<<SName(cA)>>)>>,                                                                                   \* 14: $..a
          <<N1(cX), Child(<<SFilter(LCmp("==", ERel(<<>>), EAbs(<<N1(cY)>>)))>>)>> >>                                  \* 15: $.x[?@ == $.y]   container equality                                                                                  \* 14: $..a
+\* strings that are NOT queries (grammar errors and errors found after the grammar: typing, arity): a call with one of them
+\* returns an error - and leaves nothing behind that a later call could notice
+BadQ == << <<36, 91, 63, 99, 111, 117, 110, 116, 40, 49, 41, 32, 62, 32, 48, 93>>,
+          <<36, 91, 63, 40, 64, 46, 97>>,
+          <<36, 91, 63, 64, 46, 97, 32, 61, 61, 32, 93>>,
+          <<36, 91, 63, 108, 101, 110, 103, 116, 104, 40, 64, 46, 42, 41, 32, 61, 61, 32, 49, 93>>,
+          <<36, 46, 97, 91>>,
+          <<36, 91, 63, 109, 97, 116, 99, 104, 40, 64, 46, 97, 41, 93>>,
+          <<36, 91, 63, 64, 46, 97, 32, 61, 61, 32, 49, 32, 38, 38, 32, 40, 64, 46, 98, 32, 62, 32, 93>>,
+          <<36, 46, 46, 91, 63, 118, 97, 108, 117, 101, 40, 64, 46, 97, 41, 93>>,
+          \* padded spellings of queries that the session ALSO uses (a rejection must not stick to the valid query)
+          <<32>> \o RenderQuery(SQ[5]), RenderQuery(SQ[7]) \o <<9>>, <<10>> \o RenderQuery(SQ[9]) \o <<13>>, RenderQuery(SQ[1]) \o <<32>> >>
+\* $[?count(1) > 0]   $[?(@.a   $[?@.a == ]   $[?length(@.*) == 1]   $.a[   $[?match(@.a)]   $[?@.a == 1 && (@.b > ]   $..[?value(@.a)]
+ASSUME \A k \in 1..Len(BadQ) : Verdict(BadQ[k]) = "invalid"
+AllQueryStrings == [n \in 1..Len(SQ) |-> RenderQuery(SQ[n])] \o BadQ
 Entries == <<"query", "query_with_path", "query_only_path", "prepared">>
 
 OpBlank == [k |-> "eval", e |-> "", q |-> 0, d |-> 0, loc |-> <<>>, v |-> JNull]
 Ev(e, q, d) == [OpBlank EXCEPT !.e = e, !.q = q, !.d = d]
 Wr(d, loc, v) == [OpBlank EXCEPT !.k = "write", !.d = d, !.loc = loc, !.v = v]
+Bad(e, k, d) == [OpBlank EXCEPT !.k = "bad", !.e = e, !.q = Len(SQ) + k, !.d = d]
 \* the alphabet: operations chosen to interfere with each other
 Ops == << Ev("query", 1, 1), Ev("prepared", 2, 1), Ev("query_only_path", 2, 1), Ev("query_with_path", 1, 1),   \* same pattern under match / search
           Ev("query", 3, 1), Ev("prepared", 4, 1),
@@ -51,14 +67,16 @@ Ops == << Ev("query", 1, 1), Ev("prepared", 2, 1), Ev("query_only_path", 2, 1), 
           Wr(1, <<IdxStep(1)>>, JStr(cB)), Wr(2, <<NameStep(cA)>>, JInt(7)), Wr(3, <<IdxStep(0), NameStep(cA)>>, JInt(2)),
           Wr(2, <<>>, JArr(<<JObj(<<cA>>, <<JInt(1)>>)>>)),                                   \* replaces the whole document in place: $.b disappears
           Wr(4, <<NameStep(cL), IdxStep(0)>>, JStr(cC)),                                     \* changes the list the membership test reads
-          Ev("prepared", 15, 4), Ev("query", 15, 4), Wr(4, <<NameStep(cY), IdxStep(0)>>, JInt(3)), Wr(4, <<NameStep(cX), IdxStep(1), IdxStep(0)>>, JInt(1)) >>                                     \* changes the list the membership test reads
+          Ev("prepared", 15, 4), Ev("query", 15, 4), Wr(4, <<NameStep(cY), IdxStep(0)>>, JInt(3)), Wr(4, <<NameStep(cX), IdxStep(1), IdxStep(0)>>, JInt(1)),
+          Bad("query", 1, 2), Bad("prepared", 2, 3), Bad("query_with_path", 3, 1), Bad("query_only_path", 4, 3), Bad("query", 5, 2), Bad("prepared", 6, 1),
+          Bad("query_with_path", 7, 3), Bad("query", 8, 2), Bad("query", 9, 2), Bad("prepared", 10, 2), Bad("query_with_path", 11, 3), Bad("query_only_path", 12, 1) >>                                     \* changes the list the membership test reads
 Progs == [i \in 1..Len(Ops) |-> <<Ops[i]>>] \o Cross2(Ops, Ops, LAMBDA a, b : <<a, b>>)
 
 Threads == {1, 2}
 VARIABLES prog, ip, pc, docs, hist
 vars == <<prog, ip, pc, docs, hist>>
 
-PairStride == IF Thorough THEN 37 ELSE 701
+PairStride == IF Thorough THEN 211 ELSE 1499
 Init == /\ \E i, j \in 1..Len(Progs) : Stride(PairStride, i, j) /\ prog = <<Progs[i], Progs[j]>>
         /\ ip = <<1, 1>> /\ pc = <<"idle", "idle">> /\ docs = Docs0 /\ hist = <<>>
 
@@ -68,13 +86,15 @@ Result(op) == LET ns == Denote(SQ[op.q], docs[op.d])
               IN [locs |-> ns, paths |-> [n \in 1..Len(ns) |-> NormalizedPath(ns[n])]]
 EvBlank == [ev |-> "call", t |-> 0, op |-> OpBlank, locs |-> <<>>, paths |-> <<>>, applied |-> FALSE, wpath |-> <<>>]
 
-Call(t) == /\ pc[t] = "idle" /\ HasNext(t) /\ Op(t).k = "eval"
+Call(t) == /\ pc[t] = "idle" /\ HasNext(t) /\ Op(t).k \in {"eval", "bad"}
            /\ pc' = [pc EXCEPT ![t] = "inCall"]
            /\ hist' = Append(hist, [EvBlank EXCEPT !.ev = "call", !.t = t, !.op = Op(t)])
            /\ UNCHANGED <<prog, ip, docs>>
 Return(t) == /\ pc[t] = "inCall"
-             /\ LET r == Result(Op(t)) IN
-                hist' = Append(hist, [EvBlank EXCEPT !.ev = "return", !.t = t, !.op = Op(t), !.locs = r.locs, !.paths = r.paths])
+             /\ IF Op(t).k = "bad"
+                THEN hist' = Append(hist, [EvBlank EXCEPT !.ev = "error", !.t = t, !.op = Op(t)])           \* the call returns Err
+                ELSE LET r == Result(Op(t)) IN
+                     hist' = Append(hist, [EvBlank EXCEPT !.ev = "return", !.t = t, !.op = Op(t), !.locs = r.locs, !.paths = r.paths])
              /\ pc' = [pc EXCEPT ![t] = "idle"] /\ ip' = [ip EXCEPT ![t] = ip[t] + 1]
              /\ UNCHANGED <<prog, docs>>
 \* &mut exclusivity: a write happens only while no evaluation is in progress
@@ -101,8 +121,8 @@ HistoryIndependent ==
 \* evaluation itself never changes a document
 ReadsDoNotWrite == [][(\E t \in Threads : Call(t) \/ Return(t)) => docs' = docs]_vars
 \* a call is never left open when the session is done
-NoOpenCall == Done => \A n \in 1..Len(hist) : hist[n].ev = "call" => \E m \in (n + 1)..Len(hist) : hist[m].ev = "return" /\ hist[m].t = hist[n].t
+NoOpenCall == Done => \A n \in 1..Len(hist) : hist[n].ev = "call" => \E m \in (n + 1)..Len(hist) : hist[m].ev \in {"return", "error"} /\ hist[m].t = hist[n].t
 
 Export == Done => PrintT(<<"REPLAY", ToJson([mode |-> "session", id |-> <<Len(hist)>>, docs |-> Docs0,
-                                             queries |-> [n \in 1..Len(SQ) |-> RenderQuery(SQ[n])], hist |-> hist])>>)
+                                             queries |-> AllQueryStrings, valid |-> Len(SQ), hist |-> hist])>>)
 =============================================================================
